@@ -14,7 +14,7 @@
  *     ensures   the state handler runs at most once, on an ASCII-validated line, with the command looked up from the first
  *               word and the rest of the line (after the blanks) as arguments
  *     ensures   AUTH_INV; temporaries freed
- *  _dbus_auth_do_work (2) loop contract, see contracts/c08_auth.ovl
+ *  _dbus_auth_do_work (2) loop closed by induction over the contract of process_command (verif_stub_process_command_ind, c08_cmd_stubs.h)
  *     ensures   AUTH_INV
  *     ensures   result AUTHENTICATED     => state Authenticated, g_mech_ok, nothing left to send, no pending OOM
  *     ensures   result NEED_DISCONNECT   => state NeedDisconnect
@@ -70,7 +70,7 @@ void harness (void)
   if (ret && G.handler_calls == 1 && SLEN (&auth->incoming) > 0) REACH ("handled-with-leftover");
 #elif VERIF_FN == 2
   g_pc_lines = 0; g_pc_consumed = 0; g_pc_last_was_begin = 0;
-  g_watch_out = NULL; g_watch_in = NULL;      /* line bookkeeping of the string model is not needed here (keeps the loop's write set small) */
+  g_pc_call_no = 0; g_entry.in_len = old.in_len; g_entry.out_len = old.out_len; g_entry.failures = old.failures; g_entry.max_failures = S.max_failures; g_entry.state = old.state;
   DBusAuthState r = _dbus_auth_do_work (auth);
   ASSERT_AUTH_INV (auth);
   POST (r == DBUS_AUTH_STATE_WAITING_FOR_INPUT || r == DBUS_AUTH_STATE_WAITING_FOR_MEMORY || r == DBUS_AUTH_STATE_HAVE_BYTES_TO_SEND || r == DBUS_AUTH_STATE_NEED_DISCONNECT || r == DBUS_AUTH_STATE_AUTHENTICATED,
